@@ -33,7 +33,7 @@ def run(ctx):
     cases += [c for c in shapes if "/builtin/" not in c["id"]]
     cases += progflow.generate(ctx, "all", 60 if quick else 1500, extra=("-small",))
     # every typed position x every offered expression (spec/FamC06.tla RunCases): the well-typed ones also run under the cmd.exe model
-    cases += [c for c in ctx.tlc_family("FamScale", constants={"Tier": '"quick"'}, timeout=3000) if "world" not in c["prog"]]        # sizes across the digit boundaries (%10, :_f10, _h10)
+    cases += [c for c in ctx.tlc_family("FamScale", constants={"Tier": '"quick"'}, timeout=3000) if "world" not in c["prog"] and c["id"].split("/")[1] in ("C01", "C02", "C03", "C04")]        # sizes across the digit boundaries (%10, :_f10, _h10)
     cases += comprun.accepted(ctx, False, 4 if quick else 1) + comprun.accepted(ctx, True, 4 if quick else 1)
     # the repository's own test programs: their stated expectations calibrate the cmd.exe model
     repo = corpus.cases(ctx, ("C01", "C02", "C03"))
